@@ -82,11 +82,12 @@ func hC02Offer(r Wrapper, vp vc.VerifiablePresentation) bool {
 // H02b: replay window. One validly signed JSON-LD presentation (created, expires, nonce) is offered at
 // two clock readings t1 <= t2. Property: a nonce is accepted at most once ("carry a nonce not seen before").
 func H02b() {
-	lo, hi := int64(vParam("minunix", hC02MinUnix)), int64(hC02MaxUnix)
-	created := hC02SymTime("created", lo, hi)
-	expires := hC02SymTime("expires", lo, hi)
-	t1 := hC02SymTime("t1", lo, hi)
-	t2 := hC02SymTime("t2", lo, hi)
+	lo, hi := int64(vParam("b_minunix", hC02MinUnix)), int64(hC02MaxUnix)
+	ns := vParam("b_nsecs", 1)
+	created := hC02SymTime("created", lo, hi, ns)
+	expires := hC02SymTime("expires", lo, hi, ns)
+	t1 := hC02SymTime("t1", lo, hi, ns)
+	t2 := hC02SymTime("t2", lo, hi, ns)
 	vAssume(t1.sec < t2.sec || (t1.sec == t2.sec && t1.nsec <= t2.nsec))
 
 	nonce := "n"
@@ -124,9 +125,9 @@ func H02b() {
 }
 
 func H02b_twin() {
-	created := hC02SymTime("created", 1700000000, 1700000100)
-	expires := hC02SymTime("expires", 1700000000, 1700000100)
-	t1 := hC02SymTime("t1", 1700000000, 1700000100)
+	created := hC02SymTime("created", 1700000000, 1700000100, 1)
+	expires := hC02SymTime("expires", 1700000000, 1700000100, 1)
+	t1 := hC02SymTime("t1", 1700000000, 1700000100, 1)
 	nonce := "n"
 	var p proof.LDProof
 	p.Created = created.t
